@@ -34,6 +34,11 @@ ENGINES.append({"name": "H6-storage", "path": "harness/sto_harness.cpp + lib/big
                                   "platform.c interposed at link time (descriptor ledger, short writes, injected faults); "
                                   "independent BigTIFF reader in Python; one child process per fault"})
 
+ENGINES.append({"name": "H7-simcam", "path": "harness/simcam_harness.c + engines/simcam.py", "serves_properties": ["C17", "C18"],
+                "kind_free_text": "real simulated.camera.c (+AVX2 binning, pattern fill) driven through the HAL camera "
+                                  "functions under ASan+UBSan; consumer/trigger/stopper threads with delays injected at the "
+                                  "camera's own lock/wait/sleep calls (link-time interposition)"})
+
 CHECKS = {
     "C01": dict(
         engine="H1-channel", technique="runtime monitoring: reference-model oracle over controlled interleavings + sanitizer stress",
@@ -104,6 +109,22 @@ CHECKS = {
              "pwrite/flock/close must target a descriptor the device opened and has not closed, and none may stay open "
              "after close. Exhaustive over the enumerated templates only.",
         note="single-fault and persistent-fault modes at pwrite/open; close/fsync errors not injected; 8 templates"),
+    "C17": dict(
+        engine="H7-simcam", technique="runtime monitoring: ASan+UBSan over generated configurations + shape/read-back/fill-coverage oracles",
+        level="exploration", design_ref="DESIGN.md section 4 / H7 / C17",
+        text="Thousands of generated configuration sequences (3 kinds x binning x 8 types x boundary shapes x offsets, "
+             "re-configuration and restarts) run the real render/bin/copy code under ASan+UBSan with exact-size caller "
+             "buffers; reported shape, strides and read-back values are compared with the clamped request and every "
+             "image byte must be overwritten within 6 differently pre-filled frames.",
+        note="AVX2 build as in the repository; ASan cannot see intra-object or far out-of-bounds accesses; maximal 8192x8192 renders only in thorough"),
+    "C18": dict(
+        engine="H7-simcam", technique="runtime monitoring: multi-threaded trace oracle (ids, trigger accounting) with injected delays; bounded-progress check for stop",
+        level="exploration", design_ref="DESIGN.md section 4 / H7 / C18",
+        text="Consumer, trigger and stopper threads drive 3-6 runs per camera with delays injected at the camera's own "
+             "suspension points; the trigger counter is bumped before each trigger call so 'frames <= triggers', 'no "
+             "frame without trigger' and 'id < triggers since start' are sound under every schedule; ids must strictly "
+             "increase; stop must return and release a pending get_frame (watchdog + confirmation re-run).",
+        note="schedules are sampled, not enumerated; liveness only as bounded progress; pacing bound assumes >=1 exposure per frame"),
 }
 
 PENDING_REASON = "check not built yet in this round (planned in DESIGN.md section 4; will be claimed once its harness exists)"
